@@ -533,6 +533,19 @@ def one_convolver_many_inputs(mask, kernel, matrix):
             want[:, c] = conv_full(native, kernel)[~mask]
         if not close(got, want):
             return "call %d of convolve_mapping_matrix on one Convolver != operator applied to THIS matrix (max err %.3g)" % (k + 1, maxerr(got, want))
+    # the same array OBJECT refilled in place between two calls (a work array, `M *= c`): the second call is about its new content
+    W_ = matrix.copy()
+    conv.convolve_mapping_matrix(mapping_matrix=W_)
+    W_ *= -0.5
+    W_[0, 0] += 1.0
+    got = np.asarray(conv.convolve_mapping_matrix(mapping_matrix=W_))
+    want = np.zeros(W_.shape)
+    for c in range(W_.shape[1]):
+        native = np.zeros(mask.shape)
+        native[~mask] = W_[:, c]
+        want[:, c] = conv_full(native, kernel)[~mask]
+    if not close(got, want):
+        return "convolve_mapping_matrix called again with the same array object after it was refilled in place returns the blurring of its OLD content (max err %.3g)" % maxerr(got, want)
     breg = blurring_region(mask, kernel.shape)
     bmk = aa.Mask2D(mask=~breg, pixel_scales=1.0)
     nb = int(breg.sum())
